@@ -336,6 +336,13 @@ func (s *coreLeader) handleAppEntsResp(msg *AppEntsResp) {
 		} else {
 			p.nextIndex = msg.Index // PrevLogIndex of next probing message will be 'nextIndex' - 1.
 		}
+		if p.nextIndex <= p.matchIndex {
+			// A delayed rejection (reordered or duplicated message): the follower is
+			// already known to match up to 'matchIndex', never probe below it.
+			// Otherwise every answer to such a probe is discarded as stale above and
+			// the follower is never synchronized again during this leadership.
+			p.nextIndex = p.matchIndex + 1
+		}
 
 		// Since AppEnts request has been rejected by this peer, keep probing.
 		s.sendAppEnts(p)
